@@ -756,7 +756,9 @@ fn main() {
         let low = 102_400usize;
         let high = 104_857_600usize;
         let mut cases: Vec<(&'static str, &'static str, usize, usize, bool, bool)> = Vec::new(); // method, target, limit, len, chunked, a small Content-Length header in front of Transfer-Encoding
-        let low_targets: Vec<(&'static str, &'static str)> = vec![("POST", "/t?id=1"), ("PUT", "/t?id=1"), ("PUT", "/vmAgentLog/"), ("POST", "/vmAgentLog"), ("PUT", "/machine/?comp=telemetrydata"), ("POST", "/machine/?comp=telemetrydata&x=1"), ("PUT", "/vmAgentLog?x=1")];
+        let low_targets: Vec<(&'static str, &'static str)> = vec![("POST", "/t?id=1"), ("PUT", "/t?id=1"), ("PUT", "/vmAgentLog/"), ("POST", "/vmAgentLog"), ("PUT", "/machine/?comp=telemetrydata"), ("POST", "/machine/?comp=telemetrydata&x=1"), ("PUT", "/vmAgentLog?x=1"),
+            // method tokens are case-sensitive: these are not the two exempt uploads
+            ("put", "/vmAgentLog"), ("Put", "/vmAgentLog"), ("post", "/machine/?comp=telemetrydata")];
         for (m, t) in &low_targets {
             for l in [low - 1, low, low + 1, 2 * low] {
                 for ch in [false, true] {
@@ -845,6 +847,54 @@ fn main() {
                 }
             }
         }
+        // exempt uploads that fail while their body is being read (the client gives up in the middle of a chunk, a chunk size
+        // that is no number), two or three in a row on their own connections; the next good upload is relayed like any other
+        let mut after_failed = 0u64;
+        if std::env::var("VERIF_REPLAY").is_err() {
+            for kind in ["client-aborts-mid-chunk", "malformed-chunk-size"] {
+                for k in [2usize, 3] {
+                    for _ in 0..k {
+                        sport = if sport >= 39000 { 36000 } else { sport + 1 };
+                        if let Ok(mut c) = w.connect(Some(sport), Some(&rec)) {
+                            let mut raw = b"PUT /vmAgentLog HTTP/1.1\r\nHost: metadata\r\nTransfer-Encoding: chunked\r\n\r\n".to_vec();
+                            if kind == "client-aborts-mid-chunk" {
+                                raw.extend_from_slice(b"10000\r\n");
+                                raw.extend_from_slice(&vec![b'x'; 3000]);
+                                let _ = c.send(&raw);
+                                std::thread::sleep(Duration::from_millis(30));
+                            } else {
+                                raw.extend_from_slice(b"5\r\nhello\r\nzz-not-a-size\r\n");
+                                let _ = c.send(&raw);
+                                let _ = c.read_response(false, Duration::from_secs(5));
+                            }
+                            c.close();
+                        }
+                    }
+                    std::thread::sleep(Duration::from_millis(50));
+                    for (m, t, chunked) in [("PUT", "/vmAgentLog", false), ("PUT", "/vmAgentLog", true), ("POST", "/machine/?comp=telemetrydata", false)] {
+                        sport = if sport >= 39000 { 36000 } else { sport + 1 };
+                        let body = pattern(low, 9);
+                        let cs = [4096usize];
+                        let raw = build_request(m, t, &[("Host", b"metadata")], Some(&body), if chunked { Some(&cs) } else { None });
+                        let cur = w.hosts.ws.cursor();
+                        let resp = w.connect(Some(sport), Some(&rec)).map_err(|e| e.to_string()).and_then(|mut c| {
+                            let _ = c.send_watchful(&raw);
+                            let r = c.read_response(false, Duration::from_secs(30)).map(|m| m.status());
+                            c.close();
+                            r
+                        });
+                        let got = w.hosts.ws.requests_since(cur);
+                        evals += 1;
+                        after_failed += 1;
+                        let case = json!({"family": "upload-after-failed-uploads", "failed_before": k, "failure": kind, "method": m, "target": t, "chunked": chunked, "length": low});
+                        if !(resp == Ok(200) && got.len() == 1 && got[0].1.body == body) {
+                            res.violation("within-limit-body-not-relayed-intact:after-failed-uploads", &format!("after {k} exempt uploads that failed while being read ({kind}): {m} {t} of {low} bytes got {:?}, {} requests at host", resp, got.len()), case);
+                        }
+                    }
+                }
+            }
+        }
+        res.cov("uploads_after_failed_uploads", after_failed);
         // keep-alive sequences: every ordered pair of request kinds on one connection; each request
         // is judged by the limit of its own method and URL
         if std::env::var("VERIF_REPLAY").is_err() {
@@ -906,7 +956,7 @@ fn main() {
                 }
             }
         }
-        res.cov("rule", "body lengths limit-1, limit, limit+1, 2*limit for limit = 102400 on 7 non-exempt (method, URL) pairs incl. near misses of the exempt URLs, and for limit = 104857600 on the exempt uploads (thorough: both uploads and their upper-case variants, both framings; quick: PUT /vmAgentLog at limit and limit+1 with content-length), each as content-length and as chunked; plus every ordered pair of 8 request kinds (exempt/non-exempt, small/over the low limit, both framings, 64 KiB and 1 KiB chunks) on one keep-alive connection, the second request being judged also after a refused first one when the server keeps the connection; relayed bodies compared by length and SHA-256; non-trivial = over the limit".to_string());
+        res.cov("rule", "body lengths limit-1, limit, limit+1, 2*limit for limit = 102400 on 10 non-exempt (method, URL) pairs incl. near misses of the exempt URLs and of their method tokens (put, Put, post), and for limit = 104857600 on the exempt uploads (thorough: both uploads and their upper-case variants, both framings; quick: PUT /vmAgentLog at limit and limit+1 with content-length), each as content-length and as chunked; plus good exempt uploads after 2 / 3 exempt uploads that failed while being read (client gone mid-chunk, malformed chunk size); plus every ordered pair of 8 request kinds (exempt/non-exempt, small/over the low limit, both framings, 64 KiB and 1 KiB chunks) on one keep-alive connection, the second request being judged also after a refused first one when the server keeps the connection; relayed bodies compared by length and SHA-256; non-trivial = over the limit".to_string());
     }
 
     for p in world::take_panics() {
